@@ -54,6 +54,7 @@ type store struct {
 	c         *ctl
 	monotonic bool
 	staged    uint64
+	gate      chan struct{} // when set, StoreLogs waits here first (the leader engine holds the main loop)
 }
 
 func (s *store) IsMonotonic() bool { return s.monotonic }
@@ -61,6 +62,9 @@ func (s *store) StoreLog(l *raft.Log) error {
 	return s.StoreLogs([]*raft.Log{l})
 }
 func (s *store) StoreLogs(ls []*raft.Log) error {
+	if g := s.gate; g != nil {
+		<-g
+	}
 	if err := s.c.write(true, slDesc(ls)); err != nil {
 		return err
 	}
